@@ -1036,13 +1036,38 @@ func ruleERR4(w *World) []Ob {
 				cbs = append(cbs, fv)
 			}
 		}
-		if len(cbs) == 0 {
+		// the callback spilled into a cell because a range-over-func body (a synthetic closure) captures it
+		var cbCells []ssa.Value
+		for _, fv := range fn.FreeVars {
+			if pt, ok := fv.Type().(*types.Pointer); ok && isWalkCallback(pt.Elem()) {
+				cbCells = append(cbCells, fv)
+			}
+		}
+		allInstrs(fn, func(in ssa.Instruction) {
+			if st, ok := in.(*ssa.Store); ok {
+				for _, c := range cbs {
+					if st.Val == c {
+						if al, isAl := st.Addr.(*ssa.Alloc); isAl {
+							cbCells = append(cbCells, al)
+						}
+					}
+				}
+			}
+		})
+		if len(cbs) == 0 && len(cbCells) == 0 {
 			continue
 		}
 		isCB := func(v ssa.Value) bool {
 			for _, c := range cbs {
 				if c == v {
 					return true
+				}
+			}
+			if u, ok := v.(*ssa.UnOp); ok && u.Op == token.MUL {
+				for _, c := range cbCells {
+					if u.X == c {
+						return true
+					}
 				}
 			}
 			return false
@@ -1073,8 +1098,13 @@ func ruleERR4(w *World) []Ob {
 			// branch no call involving the callback may be reachable
 			var guardSucc *ssa.BasicBlock
 			returnedSame := false
+			var storedCell ssa.Value
 			for _, r := range *c.Referrers() {
 				switch x := r.(type) {
+				case *ssa.Store:
+					if _, isFV := x.Addr.(*ssa.FreeVar); isFV && x.Val == ssa.Value(c) && fn.Synthetic == "range-over-func yield" {
+						storedCell = x.Addr
+					}
 				case *ssa.Return:
 					returnedSame = true
 					_ = x
@@ -1105,6 +1135,38 @@ func ruleERR4(w *World) []Ob {
 						_ = f
 						returnedSame = true
 					}
+				}
+			}
+			if storedCell != nil && guardSucc == nil {
+				// loop body of a range-over-func loop: the error goes into the enclosing function's variable and is
+				// tested through a load of it; what happens after the body returns is decided in the enclosing function
+				for _, in3 := range c.Block().Instrs {
+					u, ok := in3.(*ssa.UnOp)
+					if !ok || u.Op != token.MUL || u.X != storedCell || u.Referrers() == nil {
+						continue
+					}
+					for _, r := range *u.Referrers() {
+						if bo, ok := r.(*ssa.BinOp); ok && bo.Referrers() != nil {
+							for _, rr := range *bo.Referrers() {
+								if iff, ok := rr.(*ssa.If); ok {
+									if _, nonNil, ok := nilTest(bo, true); ok {
+										if nonNil {
+											guardSucc = iff.Block().Succs[0]
+										} else {
+											guardSucc = iff.Block().Succs[1]
+										}
+									}
+								}
+							}
+						}
+					}
+				}
+				if guardSucc != nil {
+					if again := rangeBodyErrorContinuation(p, fn, guardSucc); again != "" {
+						l.bad(fid, construct, pos, "after the callback failed inside a range-over-func loop body, "+again, "callback")
+						return
+					}
+					returnedSame = true
 				}
 			}
 			if !returnedSame {
@@ -1149,6 +1211,109 @@ func ruleERR4(w *World) []Ob {
 		})
 	}
 	return l.list
+}
+
+// rangeBodyErrorContinuation: body is the synthetic closure of a range-over-func loop and errSucc the block its
+// callback-error branch enters.  That branch leaves the loop by storing a constant into the loop's jump cell and
+// returning false; the enclosing function dispatches on that constant right after the iterator call.  Follows the
+// dispatch with the stored constant and reports a callback invocation (a call through the callback, a call that is
+// handed it, or the loop body being entered again) reachable from where the enclosing function continues; "" if none.
+func rangeBodyErrorContinuation(p *Prog, body *ssa.Function, errSucc *ssa.BasicBlock) string {
+	parent := body.Parent()
+	if parent == nil {
+		return "the enclosing function cannot be found (undecided)"
+	}
+	// the constant stored into the jump cell on the error branch
+	var jumpIdx = -1
+	var k *ssa.Const
+	for b := range blockReach(errSucc, nil) {
+		for _, in := range b.Instrs {
+			if st, ok := in.(*ssa.Store); ok {
+				if fv, isFV := st.Addr.(*ssa.FreeVar); isFV && strings.HasPrefix(fv.Name(), "jump$") {
+					if c, isC := st.Val.(*ssa.Const); isC {
+						for i, f := range body.FreeVars {
+							if f == fv {
+								jumpIdx = i
+							}
+						}
+						k = c
+					}
+				}
+			}
+		}
+	}
+	if k == nil || jumpIdx < 0 {
+		return "the way the loop is left cannot be determined (undecided)"
+	}
+	cbCell := map[ssa.Value]bool{}
+	out := ""
+	allInstrs(parent, func(in ssa.Instruction) {
+		mc, ok := in.(*ssa.MakeClosure)
+		if !ok || mc.Fn != ssa.Value(body) || out != "" || mc.Referrers() == nil {
+			return
+		}
+		for i, fv := range body.FreeVars {
+			if pt, ok := fv.Type().(*types.Pointer); ok && isWalkCallback(pt.Elem()) && i < len(mc.Bindings) {
+				cbCell[mc.Bindings[i]] = true
+			}
+		}
+		jumpCell := mc.Bindings[jumpIdx]
+		for _, r := range *mc.Referrers() {
+			call, ok := r.(*ssa.Call)
+			if !ok {
+				continue
+			}
+			// follow the dispatch on the jump cell with the known constant
+			cur := call.Block()
+			for steps := 0; steps < 16; steps++ {
+				if len(cur.Instrs) == 0 {
+					break
+				}
+				iff, isIf := cur.Instrs[len(cur.Instrs)-1].(*ssa.If)
+				if !isIf {
+					break
+				}
+				bo, isB := iff.Cond.(*ssa.BinOp)
+				if !isB || bo.Op != token.EQL {
+					break
+				}
+				ld, isL := bo.X.(*ssa.UnOp)
+				cst, isC := bo.Y.(*ssa.Const)
+				if !isL || !isC || ld.X != jumpCell {
+					break
+				}
+				if cst.Int64() == k.Int64() {
+					cur = cur.Succs[0]
+					break
+				}
+				cur = cur.Succs[1]
+			}
+			for b := range blockReach(cur, nil) {
+				for _, in2 := range b.Instrs {
+					switch x := in2.(type) {
+					case *ssa.MakeClosure:
+						if x.Fn == ssa.Value(body) {
+							out = "the enclosing function goes on and enters the loop body again at " + p.InstrPos(x) + ": the walk does not stop at the first failing callback and a later result replaces the error"
+						}
+					case ssa.CallInstruction:
+						com := x.Common()
+						vals := append([]ssa.Value{com.Value}, com.Args...)
+						for _, v := range vals {
+							if u, ok := v.(*ssa.UnOp); ok && u.Op == token.MUL && cbCell[u.X] {
+								out = "another callback invocation is reachable at " + p.InstrPos(in2)
+							}
+							for _, prm := range parent.Params {
+								if v == ssa.Value(prm) && isWalkCallback(prm.Type()) {
+									out = "another callback invocation is reachable at " + p.InstrPos(in2)
+								}
+							}
+						}
+					}
+				}
+			}
+		}
+	})
+	return out
 }
 
 func isWalkCallback(t types.Type) bool {
